@@ -135,8 +135,8 @@ def init (n : Nat) : State := ⟨none, [], List.replicate n {}, 0, [], [], []⟩
 inductive Op where
   /-- clone `i` creates a commit on its branch through git-ai; post-commit writes the note -/
   | commit (i : Nat)
-  /-- clone `i` (re)writes the note of an existing commit it holds (`notes add -f`);
-      excluded by `SingleWriter` -/
+  /-- clone `i` (re)writes the note of commit `c` (`git notes add -f`; git accepts a full oid
+      even when the object is not in the clone); excluded by `SingleWriter` -/
   | rewrite (i : Nat) (c : Oid)
   /-- `git fetch` in clone `i` → fetch_authorship_notes (also what `git clone` runs) -/
   | fetch (i : Nat)
@@ -183,13 +183,11 @@ def stepRewrite (s : State) (i : Nat) (c : Oid) : State :=
   match s.clones[i]? with
   | none => s
   | some cl =>
-    if cl.has.contains c then
-      let v := s.next
-      let id := s.next + 1
-      let nr := addNote cl.loc id c v
-      { s with clones := s.clones.set i { cl with loc := some nr },
-               next := s.next + 2, objs := nr :: s.objs, wr := (id, c, v) :: s.wr }
-    else s
+    let v := s.next
+    let id := s.next + 1
+    let nr := addNote cl.loc id c v
+    { s with clones := s.clones.set i { cl with loc := some nr },
+             next := s.next + 2, objs := nr :: s.objs, wr := (id, c, v) :: s.wr }
 
 /-- fetch_authorship_notes: `ls-remote origin refs/notes/ai` empty → NotFound (nothing
     touched); else forced fetch into the tracking ref, then merge or copy. The user's own
